@@ -548,7 +548,8 @@ func c19Case(c *explore.Ctx, d *tailDir, segName string, data []byte, desc strin
 	defer s.DB.Close()
 	alloc := int64(ms1.TotalAlloc - ms0.TotalAlloc)
 	c.Outcome("alloc_bucket", fmt.Sprintf("<=%dKiB", 1<<uint(bitsLen(alloc>>10))))
-	if img.Stats.MaxReadLen > totalSeg+4096 {
+	if img.Stats.MaxReadLen > totalSeg+4<<20 {
+		// (a constant-size read buffer is not "proportional to the claimed lengths": same slack as the allocation bound)
 		return fmt.Sprintf("recovery requested a single read of %d bytes; the segment files hold %d bytes in total", img.Stats.MaxReadLen, totalSeg)
 	}
 	if alloc > c19AllocBound(totalSeg) {
